@@ -5,6 +5,7 @@ go 1.25.0
 require (
 	github.com/hashicorp/go-msgpack/v2 v2.1.5
 	github.com/hashicorp/logutils v1.0.0
+	github.com/hashicorp/memberlist v0.5.4
 	github.com/hashicorp/serf v0.0.0
 )
 
@@ -29,7 +30,6 @@ require (
 	github.com/hashicorp/go-syslog v1.0.0 // indirect
 	github.com/hashicorp/golang-lru v1.0.2 // indirect
 	github.com/hashicorp/mdns v1.0.7 // indirect
-	github.com/hashicorp/memberlist v0.5.4 // indirect
 	github.com/huandu/xstrings v1.3.3 // indirect
 	github.com/imdario/mergo v0.3.11 // indirect
 	github.com/mattn/go-colorable v0.1.13 // indirect
